@@ -420,7 +420,8 @@ func TestVerifChanCorr(t *testing.T) {
 	opts := NewOptions()
 	opts.Logger = nil
 	opts.LogLevel = LOG_FATAL
-	opts.TCPAddress, opts.HTTPAddress, opts.HTTPSAddress = "127.0.0.1:0", "127.0.0.1:0", ""
+	opts.TCPAddress, opts.HTTPAddress = vfLoop2()
+	opts.HTTPSAddress = ""
 	opts.DataPath = t.TempDir()
 	opts.MemQueueSize = 100000
 	opts.QueueScanInterval = time.Hour // park the background scan: the harness owns the clock
@@ -805,7 +806,7 @@ func TestVerifWallClock(t *testing.T) {
 	if os.Getenv("VERIF_WALL_DEFAULT_REFRESH") == "" {
 		opts.QueueScanRefreshInterval = 100 * time.Millisecond
 	}
-	tcpAddr, _, nsqd := mustStartNSQD(opts)
+	tcpAddr, _, nsqd := vfStartNSQD(opts)
 	defer nsqd.Exit()
 	defer vfE1PanicGuard("a wall-clock scenario", nil)()
 	rounds := vfEnvInt("VERIF_N", 2)
@@ -1056,7 +1057,7 @@ func TestVerifTouchTCP(t *testing.T) {
 	opts.MsgTimeout = 61 * time.Second
 	opts.MaxMsgTimeout = 17 * time.Minute
 	opts.MaxReqTimeout = 47 * time.Minute
-	tcpAddr, _, nsqd := mustStartNSQD(opts)
+	tcpAddr, _, nsqd := vfStartNSQD(opts)
 	defer nsqd.Exit()
 	defer vfE1PanicGuard("TOUCH over TCP", nil)()
 	r := vfNewRand(73)
@@ -1145,7 +1146,7 @@ func TestVerifScanLoop(t *testing.T) {
 	opts.MemQueueSize = 1000
 	opts.QueueScanInterval = 25 * time.Millisecond
 	opts.QueueScanRefreshInterval = 50 * time.Millisecond
-	_, _, nsqd := mustStartNSQD(opts)
+	_, _, nsqd := vfStartNSQD(opts)
 	defer nsqd.Exit()
 	defer vfE1PanicGuard("the scan-loop scenario", nil)()
 	r := vfNewRand(79)
@@ -1298,7 +1299,7 @@ func vfE1ScanLoopDirty(t *testing.T, r *vfRand, variant string) bool {
 		opts.QueueScanSelectionCount = nChannels + 1
 	}
 	interval := opts.QueueScanInterval
-	_, _, nsqd := mustStartNSQD(opts)
+	_, _, nsqd := vfStartNSQD(opts)
 	busy := nsqd.GetTopic("vf_dirty_busy").GetChannel("busy")
 	for i := 0; i < nChannels-1; i++ {
 		nsqd.GetTopic(fmt.Sprintf("vf_dirty_idle_%d", i)).GetChannel("idle")
@@ -1512,7 +1513,7 @@ func TestVerifScanWindowReplay(t *testing.T) {
 	opts.MemQueueSize = 100
 	opts.QueueScanInterval = time.Hour
 	opts.QueueScanRefreshInterval = time.Hour
-	_, _, nsqd := mustStartNSQD(opts)
+	_, _, nsqd := vfStartNSQD(opts)
 	defer nsqd.Exit()
 	defer vfE1PanicGuard("the scan-window replay", nil)()
 	defer VerifClearHooks()
@@ -1589,7 +1590,7 @@ func TestVerifStaleHeapReplay(t *testing.T) {
 	opts.MemQueueSize = 100
 	opts.QueueScanInterval = time.Hour
 	opts.QueueScanRefreshInterval = time.Hour
-	_, _, nsqd := mustStartNSQD(opts)
+	_, _, nsqd := vfStartNSQD(opts)
 	defer nsqd.Exit()
 	defer vfE1PanicGuard("the stale-heap replay", nil)()
 	defer VerifClearHooks()
